@@ -39,6 +39,8 @@ def run(ctx):
     from pose_format import Pose
     from pose_format.pose_header import PoseHeaderCache
     rng = ctx.rng
+    import random as _random
+    rng_tw = _random.Random(f"c07-trailing-window-{ctx.seed}")
     files = []
     nsmall, nlarge = ctx.pick(6, 30), ctx.pick(6, 30)
     while len(files) < nsmall:
@@ -105,6 +107,17 @@ def run(ctx):
                 ctx.evaluated((raw, "extra", extra, reader)); ctx.count("trailing:" + reader)
                 if res[0] != "ok" or pc.diff(intact, res[1]):
                     ctx.violation("appended bytes change what is read", {"hex": raw.hex() if len(raw) < 3000 else None, "extra": extra.hex()[:200], "reader": reader}, {}, True, size=len(raw))
+            # … and under a window (Props/C07.trailing_ignored_window); its own generator, so the draws of the rest of the check stay where they were
+            if F:
+                ws = rng_tw.randrange(0, F)
+                win = {"start_frame": ws, "end_frame": rng_tw.choice([ws + 1, F, rng_tw.randint(ws + 1, F)])}
+                for reader in ("bytes", "stream"):
+                    ref = c03.impl_read(raw, reader, win, None)
+                    res = c03.impl_read(raw + extra, reader, win, None)
+                    ctx.evaluated((raw, "extra-window", extra, reader, win["start_frame"], win["end_frame"])); ctx.count("trailing-window:" + reader)
+                    if ref[0] != res[0] or (ref[0] == "ok" and pc.diff(ref[1], res[1])):
+                        ctx.violation("appended bytes change what a windowed read returns", {"hex": raw.hex() if len(raw) < 3000 else None, "extra": extra.hex()[:200], "reader": reader, "window": win},
+                                      {"intact": ref[0], "extended": res[0]}, True, size=len(raw))
         # the other body classes read through their own unpack routines: every cut (small files) / the field boundaries (large) into torch in-process, into tensorflow in a child
         other_cuts = cuts if kind == "small" else cuts[:: max(1, len(cuts) // 40)]
         from pose_format.torch.pose_body import TorchPoseBody
